@@ -258,6 +258,82 @@ func (r *c08Rig) trace(c *c08Case) (pcs []uint16, acc []int) {
 	return
 }
 
+// genC08Case draws a program, a device script and breakpoint sets (placed on addresses the program really visits).
+func genC08Case(t *rapid.T, rig *c08Rig, col *stats.Collector) (c c08Case, pcs []uint16, ok bool) {
+	if rapid.IntRange(0, 3).Draw(t, "soup?") == 0 {
+		n := rapid.IntRange(1, 24).Draw(t, "soupLen")
+		for i := 0; i < n; i++ {
+			c.Soup = append(c.Soup, int(rapid.Uint8().Draw(t, "b")))
+		}
+		c.SoupAt = rapid.SampledFrom([]uint16{0x0100, 0xFFF0, 0xFFFA, 0x0000, 0x8000}).Draw(t, "soupAt")
+		c.SoupSeed = rapid.Uint64().Draw(t, "soupSeed")
+	} else {
+		c.Prog = genProgram(t, 10)
+	}
+	c.IM = rapid.IntRange(0, 2).Draw(t, "im")
+	c.Arg = int(rapid.Uint8().Draw(t, "vector"))
+	c.StaleHalt = rapid.Bool().Draw(t, "staleHalt")
+	c.Runs = rapid.IntRange(1, 6).Draw(t, "runs")
+	// first: where does the program go?
+	c.NilBP = true
+	var acc []int
+	if safely(func() { pcs, acc = rig.trace(&c) }) != nil {
+		col.Label("discarded:step-panics")
+		return
+	}
+	// device script
+	if c.Prog != nil && rapid.IntRange(0, 2).Draw(t, "script?") == 0 && len(acc) > 0 {
+		ns := rapid.IntRange(1, 2).Draw(t, "nscript")
+		for i := 0; i < ns; i++ {
+			at := rapid.IntRange(1, acc[len(acc)-1]+3).Draw(t, "scriptAt")
+			kind := rapid.SampledFrom([]string{"nmi", "int"}).Draw(t, "scriptKind")
+			c.Script = append(c.Script, c08Script{At: at, Kind: kind})
+		}
+		if safely(func() { pcs, acc = rig.trace(&c) }) != nil {
+			col.Label("discarded:step-panics")
+			return c, nil, false
+		}
+	}
+	// breakpoints
+	switch rapid.IntRange(0, 6).Draw(t, "bpShape") {
+	case 0:
+		c.NilBP = true
+	case 1:
+		c.NilBP = false
+	case 2:
+		c.NilBP, c.BPs = false, []uint16{pcs[0]}
+	case 3:
+		c.NilBP, c.BPs = false, []uint16{pcs[len(pcs)-1]}
+	case 4: // inside an instruction: one past an executed PC
+		i := rapid.IntRange(0, len(pcs)-1).Draw(t, "bpIdx")
+		c.NilBP, c.BPs = false, []uint16{pcs[i] + 1}
+	default:
+		c.NilBP = false
+		nb := rapid.IntRange(1, 4).Draw(t, "nbp")
+		for i := 0; i < nb; i++ {
+			c.BPs = append(c.BPs, pcs[rapid.IntRange(0, len(pcs)-1).Draw(t, "bpIdx")])
+		}
+	}
+	if c.Prog != nil && rapid.IntRange(0, 3).Draw(t, "nilIO") == 0 {
+		c.NilIO = true
+	}
+	if !c.NilBP && c.Runs >= 2 && rapid.IntRange(0, 1).Draw(t, "editBPs") == 0 {
+		c.InPlace = rapid.Bool().Draw(t, "inPlace")
+		for i := 1; i < c.Runs; i++ {
+			n := len(c.BPs)
+			if rapid.Bool().Draw(t, "otherSize") {
+				n = rapid.IntRange(0, 4).Draw(t, "nbp2")
+			}
+			var set []uint16
+			for j := 0; j < n; j++ {
+				set = append(set, pcs[rapid.IntRange(0, len(pcs)-1).Draw(t, "bpIdx2")])
+			}
+			c.BPSets = append(c.BPSets, set)
+		}
+	}
+	return c, pcs, true
+}
+
 func TestC08(t *testing.T) {
 	col := stats.New("C08")
 	col.Sub = "run"
@@ -268,78 +344,9 @@ func TestC08(t *testing.T) {
 		"number of accesses, pending request and port output must be equal after every call; non-trivial = >= 2 Run calls with a breakpoint hit, or a device-raised interrupt; distinct by hash(case)"
 	rig := &c08Rig{}
 	rapid.Check(t, func(t *rapid.T) {
-		var c c08Case
-		if rapid.IntRange(0, 3).Draw(t, "soup?") == 0 {
-			n := rapid.IntRange(1, 24).Draw(t, "soupLen")
-			for i := 0; i < n; i++ {
-				c.Soup = append(c.Soup, int(rapid.Uint8().Draw(t, "b")))
-			}
-			c.SoupAt = rapid.SampledFrom([]uint16{0x0100, 0xFFF0, 0xFFFA, 0x0000, 0x8000}).Draw(t, "soupAt")
-			c.SoupSeed = rapid.Uint64().Draw(t, "soupSeed")
-		} else {
-			c.Prog = genProgram(t, 10)
-		}
-		c.IM = rapid.IntRange(0, 2).Draw(t, "im")
-		c.Arg = int(rapid.Uint8().Draw(t, "vector"))
-		c.StaleHalt = rapid.Bool().Draw(t, "staleHalt")
-		c.Runs = rapid.IntRange(1, 6).Draw(t, "runs")
-		// first: where does the program go?
-		c.NilBP = true
-		var pcs []uint16
-		var acc []int
-		if safely(func() { pcs, acc = rig.trace(&c) }) != nil {
-			col.Label("discarded:step-panics")
+		c, pcs, ok := genC08Case(t, rig, col)
+		if !ok {
 			return
-		}
-		// device script
-		if c.Prog != nil && rapid.IntRange(0, 2).Draw(t, "script?") == 0 && len(acc) > 0 {
-			ns := rapid.IntRange(1, 2).Draw(t, "nscript")
-			for i := 0; i < ns; i++ {
-				at := rapid.IntRange(1, acc[len(acc)-1]+3).Draw(t, "scriptAt")
-				kind := rapid.SampledFrom([]string{"nmi", "int"}).Draw(t, "scriptKind")
-				c.Script = append(c.Script, c08Script{At: at, Kind: kind})
-			}
-			if safely(func() { pcs, acc = rig.trace(&c) }) != nil {
-				col.Label("discarded:step-panics")
-				return
-			}
-		}
-		// breakpoints
-		switch rapid.IntRange(0, 6).Draw(t, "bpShape") {
-		case 0:
-			c.NilBP = true
-		case 1:
-			c.NilBP = false
-		case 2:
-			c.NilBP, c.BPs = false, []uint16{pcs[0]}
-		case 3:
-			c.NilBP, c.BPs = false, []uint16{pcs[len(pcs)-1]}
-		case 4: // inside an instruction: one past an executed PC
-			i := rapid.IntRange(0, len(pcs)-1).Draw(t, "bpIdx")
-			c.NilBP, c.BPs = false, []uint16{pcs[i] + 1}
-		default:
-			c.NilBP = false
-			nb := rapid.IntRange(1, 4).Draw(t, "nbp")
-			for i := 0; i < nb; i++ {
-				c.BPs = append(c.BPs, pcs[rapid.IntRange(0, len(pcs)-1).Draw(t, "bpIdx")])
-			}
-		}
-		if c.Prog != nil && rapid.IntRange(0, 3).Draw(t, "nilIO") == 0 {
-			c.NilIO = true
-		}
-		if !c.NilBP && c.Runs >= 2 && rapid.IntRange(0, 1).Draw(t, "editBPs") == 0 {
-			c.InPlace = rapid.Bool().Draw(t, "inPlace")
-			for i := 1; i < c.Runs; i++ {
-				n := len(c.BPs)
-				if rapid.Bool().Draw(t, "otherSize") {
-					n = rapid.IntRange(0, 4).Draw(t, "nbp2")
-				}
-				var set []uint16
-				for j := 0; j < n; j++ {
-					set = append(set, pcs[rapid.IntRange(0, len(pcs)-1).Draw(t, "bpIdx2")])
-				}
-				c.BPSets = append(c.BPSets, set)
-			}
 		}
 		var o c08Outcome
 		if pv := safely(func() { o = rig.run(&c) }); pv != nil {
